@@ -94,7 +94,7 @@ func c18(c *Ctx) {
 			}
 		}
 		// --- queen on sampled occupancies
-		nq := c.Size(20000, 400000)
+		nq := c.Size(20000, 4000000)
 		for i := 0; i < nq; i++ {
 			occ := r.U64()
 			switch i % 4 {
@@ -330,7 +330,7 @@ func c18(c *Ctx) {
 		}
 	}
 	boards = append(boards, 0, ^uint64(0), 0x0101010101010101, 0x8080808080808080, 0xff, 0xff00000000000000)
-	nr := c.Size(60000, 1000000) / c.NShards
+	nr := c.Size(60000, 16000000) / c.NShards
 	for i := 0; i < nr; i++ {
 		x := r.U64()
 		if i%3 == 1 {
